@@ -1,6 +1,7 @@
 import NodisVerif.Proofs.C20Finds
 import NodisVerif.Proofs.C20Keys
 import NodisVerif.Proofs.C20ZStoreEx
+import NodisVerif.Proofs.FloatDecRegions
 /-
   C20 — The change feed replays on a replica.
 
@@ -397,5 +398,31 @@ theorem late_apply_finding :
    Later replica time: `late_apply_finding` — a record applied after a deadline it does not carry has
      passed diverges; batches are applied at the time of their call (`applyBatches`), and the result
      holds at every later time (`same_later`). -/
+
+/-! ### IncrByFloat / HIncrByFloat without a region (work package C)
+
+  With the decimal float text of Model/FloatDec.lean, FormatFloat is total and the value "0" of a fresh key parses:
+  the regions `IncrByFloatCreatesAndFails` / `HIncrByFloatCreatesAndFails` of `Call.Region` are empty, so these two
+  calls replay for EVERY increment (fractions, exponents, ±Inf, NaN) — the "integer-valued" restriction is gone. -/
+
+theorem replay_incrByFloat_any (k : Bytes) (d : F64) (hwf : (Call.incrByFloat k d).WF) {now : Int} {p r : MState}
+    (hs : Same now p r) (hl : p.listeners = true) (hfd : p.feed = []) :
+    ∃ r', Feed.applyAll r now (Feed.emission (Call.incrByFloat k d).info ((Call.incrByFloat k d).run p now).2
+        ((Call.incrByFloat k d).run p now).1.feed.reverse) = some r' ∧
+      Same now ((Call.incrByFloat k d).run p now).1 r' :=
+  replay_call_partial _ hwf hs hl hfd (call_region_incrByFloat _ k d)
+
+theorem replay_hincrByFloat_any (k f : Bytes) (d : F64) (hwf : (Call.hincrByFloat k f d).WF) {now : Int} {p r : MState}
+    (hs : Same now p r) (hl : p.listeners = true) (hfd : p.feed = []) :
+    ∃ r', Feed.applyAll r now (Feed.emission (Call.hincrByFloat k f d).info ((Call.hincrByFloat k f d).run p now).2
+        ((Call.hincrByFloat k f d).run p now).1.feed.reverse) = some r' ∧
+      Same now ((Call.hincrByFloat k f d).run p now).1 r' :=
+  replay_call_partial _ hwf hs hl hfd (call_region_hincrByFloat _ k f d)
+
+/-- the well-formedness side conditions are satisfiable: an increment of 0.1 on key "k", field "f" -/
+example : (Call.incrByFloat [107] 0x3FB999999999999A).WF ∧ (Call.hincrByFloat [107] [102] 0x3FB999999999999A).WF := by
+  refine ⟨?_, ?_⟩
+  · show True; trivial
+  · show ([102] : Bytes).length + 1040 < 2 ^ 63; decide
 
 end NodisVerif.C20
